@@ -277,6 +277,18 @@ func execC16(r *kernel.Run, s C16Spec) {
 			r.Violate("C16:malformed-key", map[string]any{"why": why}, "generation %d (%d bits, %d bases): %s", i, s.Bits[i], s.Attrs[i], why)
 		}
 	}
+	// keys generated side by side must not have anything in common: a shared prime factor breaks both
+	for i := range s.Bits {
+		for j := i + 1; j < len(s.Bits); j++ {
+			if outs[i].pk == nil || outs[j].pk == nil {
+				continue
+			}
+			r.Eval(1)
+			if g := new(big.Int).GCD(nil, nil, outs[i].pk.N, outs[j].pk.N); g.Cmp(big.NewInt(1)) != 0 {
+				r.Violate("C16:keys-share-a-prime-factor", nil, "the moduli of generations %d and %d (run side by side) have the common factor %v", i, j, g)
+			}
+		}
+	}
 	if s.FindPrime > 0 {
 		o := outs[len(s.Bits)]
 		switch {
